@@ -482,8 +482,10 @@ class Scheduler(object):
         return out
 
     def thread_summary(self):
-        return [
-            {
+        out = []
+        frames = None
+        for t in self.threads:
+            d = {
                 "name": t.name,
                 "client": t.client,
                 "done": t.done,
@@ -491,8 +493,14 @@ class Scheduler(object):
                 "blocked_on": None if t.done else _describe(t.blocked_on),
                 "loc": t.loc,
             }
-            for t in self.threads
-        ]
+            if not t.done and (isinstance(t.blocked_on, (CLock, CRLock)) or (t.loc and t.loc[1] == "_block_until_ready")):
+                # waiting for a mutex (or parked in a blocking submit) at the end of a run: say which one and from where
+                if frames is None:
+                    frames = sys._current_frames()
+                d["blocked_id"] = id(t.blocked_on)
+                d["stack"] = _fmt_stack(frames.get(t.ident))
+            out.append(d)
+        return out
 
     def dump(self):
         frames = sys._current_frames()
